@@ -314,4 +314,111 @@ theorem civilOfDays_year_mono {a b : Int} (h : a ≤ b) : (civilOfDays a).y ≤ 
   · rw [e]; exact Int.le_refl _
   · unfold Date.lt at l; omega
 
+/-! ### well-formedness -/
+
+theorem daysInMonth_ge (y : Int) (m : Nat) : 28 ≤ daysInMonth y m := by
+  unfold daysInMonth; split
+  · split <;> omega
+  · split <;> omega
+
+theorem nextDay_valid {dt : Date} (h : dt.Valid) : (nextDay dt).Valid := by
+  obtain ⟨h1, h2, h3, h4⟩ := h
+  unfold nextDay
+  split
+  · exact ⟨h1, h2, by simp, by simpa using (by omega : dt.d + 1 ≤ daysInMonth dt.y dt.m)⟩
+  · split
+    · have := daysInMonth_ge dt.y (dt.m + 1)
+      exact ⟨by simp, by simpa using (by omega : dt.m + 1 ≤ 12), by simp, by simpa using (by omega : 1 ≤ daysInMonth dt.y (dt.m + 1))⟩
+    · have := daysInMonth_ge (dt.y + 1) 1
+      exact ⟨by simp, by simp, by simp, by simpa using (by omega : 1 ≤ daysInMonth (dt.y + 1) 1)⟩
+
+theorem addDays_valid (k : Nat) {dt : Date} (h : dt.Valid) : (addDays k dt).Valid := by
+  induction k with
+  | zero => exact h
+  | succ k ih => rw [addDays_succ_right]; exact nextDay_valid ih
+
+theorem eraStart_valid (era : Int) : (dateOfEraDoe era 0).Valid := by
+  unfold dateOfEraDoe Date.Valid daysInMonth
+  simp [civilOfDoe_zero]
+
+theorem eraDoe_eq_addDays (era : Int) (doe : Nat) (h : doe < 146097) :
+    dateOfEraDoe era doe = addDays doe (dateOfEraDoe era 0) := by
+  induction doe with
+  | zero => rfl
+  | succ k ih => rw [addDays_succ_right, ← ih (by omega)]; exact eraDoe_step era k h
+
+/-- every day number maps to a well-formed calendar date -/
+theorem civilOfDays_valid (n : Int) : (civilOfDays n).Valid := by
+  rw [civilOfDays_eq]
+  have h0 : 0 ≤ (n + 693899) % 146097 := Int.emod_nonneg _ (by decide)
+  have h1 : (n + 693899) % 146097 < 146097 := Int.emod_lt_of_pos _ (by decide)
+  rw [eraDoe_eq_addDays _ _ (by omega)]
+  exact addDays_valid _ (eraStart_valid _)
+
+/-! ### chrono's span in day numbers -/
+
+/-- day number of `NaiveDate::MIN` = -262143-01-01 -/
+def minDay : Int := -96439723
+/-- day number of `NaiveDate::MAX` = +262142-12-31 -/
+def maxDay : Int := 95051805
+
+theorem civilOfDays_minDay : civilOfDays minDay = { y := -262143, m := 1, d := 1 } := by decide
+theorem civilOfDays_minDay_pred : civilOfDays (minDay - 1) = { y := -262144, m := 12, d := 31 } := by decide
+theorem civilOfDays_maxDay : civilOfDays maxDay = { y := 262142, m := 12, d := 31 } := by decide
+theorem civilOfDays_maxDay_succ : civilOfDays (maxDay + 1) = { y := 262143, m := 1, d := 1 } := by decide
+
+/-- the year of a day number is inside chrono's span exactly between `minDay` and `maxDay` -/
+theorem year_in_span_iff (n : Int) :
+    (-262143 ≤ (civilOfDays n).y ∧ (civilOfDays n).y ≤ 262142) ↔ (-96439723 ≤ n ∧ n ≤ 95051805) := by
+  have e1 : (civilOfDays (-96439724)).y = -262144 := by decide
+  have e2 : (civilOfDays (-96439723)).y = -262143 := by decide
+  have e3 : (civilOfDays 95051805).y = 262142 := by decide
+  have e4 : (civilOfDays 95051806).y = 262143 := by decide
+  constructor
+  · intro ⟨hlo, hhi⟩
+    refine ⟨?_, ?_⟩
+    · apply Decidable.byContradiction; intro hc
+      have := civilOfDays_year_mono (a := n) (b := -96439724) (by omega)
+      omega
+    · apply Decidable.byContradiction; intro hc
+      have := civilOfDays_year_mono (a := 95051806) (b := n) (by omega)
+      omega
+  · intro ⟨hlo, hhi⟩
+    have a := civilOfDays_year_mono hlo
+    have b := civilOfDays_year_mono hhi
+    omega
+
+theorem addDaysChecked_eq (days : Int) :
+    addDaysChecked days = if minDay ≤ days ∧ days ≤ maxDay then some (civilOfDays days) else none := by
+  have hs := year_in_span_iff days
+  unfold addDaysChecked minYear maxYear minDay maxDay
+  by_cases hin : -96439723 ≤ days ∧ days ≤ 95051805
+  · have hy := hs.2 hin
+    rw [if_neg (by omega), if_pos hin]
+    simp only []
+    rw [if_neg (by omega)]
+  · rw [if_neg hin]
+    by_cases h32 : days < -2147483648 ∨ days > 2147483647
+    · rw [if_pos h32]
+    · rw [if_neg h32]
+      simp only []
+      rw [if_pos]
+      apply Decidable.byContradiction; intro hc
+      exact hin (hs.1 (by omega))
+
+/-- chrono's seconds/days split is the plain floor division by one day -/
+theorem days_of_ms (ms : Int) : (ms / 1000 - ms / 1000 % 86400) / 86400 = ms / 86400000 := by omega
+
+theorem tod_of_ms (ms : Int) :
+    ((ms / 1000 % 86400).toNat * 1000 + (ms % 1000).toNat : Nat) = (ms % 86400000).toNat := by omega
+
+/-! ### whole-day serials -/
+
+theorem dayNumber_false (n : Int) : dayNumber false n = if n ≥ 60 then n else n + 1 := rfl
+theorem dayNumber_true (n : Int) :
+    dayNumber true n = if n + 1462 ≥ 60 then n + 1462 else n + 1462 + 1 := rfl
+theorem tryMilliseconds_eq (v : Int) :
+    tryMilliseconds v = if v < -9223372036854775807 then none else some v := rfl
+theorem timeOfSecs_zero : timeOfSecs 0 0 = { h := 0, mi := 0, s := 0, ms := 0 } := rfl
+
 end Dates
